@@ -1099,7 +1099,10 @@ def _cli_case(draw):
             # nothing left for the blanket: take an allowance away from a typed entry instead
             typed = [[t, (expected[t] - 1 if i == 0 else c)] for i, (t, c) in enumerate(typed)]
         if draw(st.sampled_from([False, False, True])):
-            typed.append([draw(st.sampled_from(['never-occurs', 'unmapped-atom'])), draw(st.sampled_from([3, None]))])
+            extra_type = draw(st.sampled_from(['never-occurs', 'unmapped-atom']))
+            if any(t == extra_type for t, _ in typed):
+                extra_type = 'never-occurs'     # a type both waived by name and given a count is a combination the statement leaves open
+            typed.append([extra_type, draw(st.sampled_from([3, None]))])
         if blanket is not None:
             typed.insert(draw(st.integers(0, len(typed))), [None, blanket])
         if typed:
